@@ -101,11 +101,12 @@ Qed.
 
 (* ---- the kind ---- *)
 
-Theorem run_down_correct m h cut dt run R a b cs :
-  local_comp h -> cut_ok cut -> chunking_of dt run R a b cs ->
-  exists out, run_down m h cut cs = Ok out /\ chunking_of (o_dtype m) (o_run m) (h R) a b out.
+Theorem run_down_core m h cut dt run R a b cs :
+  local_comp h -> cut_ok cut -> chunking_core dt run R a b cs ->
+  exists out, run_down m h cut cs = Ok out /\ chunking_core (o_dtype m) (o_run m) (h R) a b out /\
+              (no_trailing b cs -> no_trailing b out).
 Proof.
-  intros L CO ((Hne & W & TT & Ch & HR) & U & NT).
+  intros L CO ((Hne & W & TT & Ch & HR) & U).
   destruct (iter_single_spec dt run cs a b Hne W U Ch) as (calls & Ei & F & _).
   unfold run_down. rewrite Ei. cbn [res_bind].
   assert (HM : forall cs calls s e, Forall wf cs -> Forall tight cs -> Forall2 same_data cs calls -> chain s cs e ->
@@ -143,7 +144,16 @@ Proof.
         eapply Forall_impl; [|exact Hle]. cbn. intros x Hx. rewrite S2 in Hx. lia.
       * apply NT'. cbn [map] in NTc. rewrite removelast_cons in NTc by discriminate. inversion NTc; auto. }
   destruct (HM cs calls a b W TT F Ch) as (outs & Em & Wo & To & Cho & Ro & Uo & Hn & _ & HNT).
-  rewrite Em. cbn [res_bind]. exists (concat outs). split; [reflexivity|]. split; [|split; [exact Uo|exact (HNT NT)]].
+  rewrite Em. cbn [res_bind]. exists (concat outs). split; [reflexivity|]. split; [|exact HNT]. split; [|exact Uo].
   split; [apply Hn; exact Hne|]. split; [exact Wo|]. split; [exact To|]. split; [exact Cho|].
   rewrite Ro, <- (lc_flat h L), HR. reflexivity.
+Qed.
+
+Theorem run_down_correct m h cut dt run R a b cs :
+  local_comp h -> cut_ok cut -> chunking_of dt run R a b cs ->
+  exists out, run_down m h cut cs = Ok out /\ chunking_of (o_dtype m) (o_run m) (h R) a b out.
+Proof.
+  intros L CO HC. apply chunking_of_core in HC as [HC NT].
+  destruct (run_down_core m h cut dt run R a b cs L CO HC) as (out & E & HO & HN).
+  exists out. split; [exact E|]. apply chunking_of_core. auto.
 Qed.
